@@ -168,6 +168,26 @@ fn raw_pull(c: &Client, resource: &str, csleep_us: u64, cancel_after: Option<usi
     json!({"open": "ok", "format": o.format, "compression": o.compression, "replies": replies, "ended": ended, "cancelled": cancelled, "after": after, "bytes_hex_len": bytes.len(), "bytes": util::hex(&bytes)})
 }
 
+/// a release sent from a SECOND connection while a `next` of the first one is parked on a slow producer:
+/// the parked `next` may still complete, the one after it must be an error
+fn raw_pull_concurrent_cancel(addr: std::net::SocketAddr, resource: &str) -> Value {
+    let c = Client::connect(addr).unwrap();
+    let Ok(open) = c.call_with_formats(svs::ROUTE_OPEN, 1, Some(&beve::to_vec(&OpenRequest { resource: resource.into() }).unwrap()), 1) else { return json!({"open": "err"}) };
+    let Ok(o) = open.beve_body::<OpenResponse>() else { return json!({"open": "bad"}) };
+    let sid = o.stream_id;
+    let next = move |c: &Client| c.call_with_formats(svs::ROUTE_NEXT, 1, Some(&beve::to_vec(&NextRequest { stream_id: sid }).unwrap()), 1);
+    let kind = |r: Result<Message, RepeError>| match r { Ok(m) => if m.query.first().copied() == Some(1) { "last" } else { "chunk" }, Err(_) => "err" };
+    let first = kind(next(&c));
+    let c1 = c.clone();
+    let parked = std::thread::spawn(move || kind(next(&c1)));
+    std::thread::sleep(Duration::from_millis(25));
+    let c2 = Client::connect(addr).unwrap();
+    let acked = c2.call_with_formats(svs::ROUTE_CANCEL, 1, Some(&beve::to_vec(&CancelRequest { stream_id: sid, reason: "from another connection".into() }).unwrap()), 1).is_ok();
+    let second = parked.join().unwrap_or("err");
+    let third = kind(next(&c));
+    json!({"ev": "raw_cc", "open": "ok", "first": first, "second": second, "third": third, "cancel_acked": acked})
+}
+
 fn decompress(comp: u8, b: &[u8]) -> Option<Vec<u8>> {
     if comp == 0 { Some(b.to_vec()) } else { zstd::stream::decode_all(b).ok() }
 }
@@ -231,6 +251,12 @@ pub fn c09(a: &Args) -> i32 {
                         finish_raw(&mut e, "writer", n, -1, compu, chunk, depth, &logical("writer", n), 0, 0);
                         out.push(&e); n_pulls += 1;
                     }
+                }
+                // --- release from another connection while a next is parked on the (slow) producer
+                if chunk <= 64 {
+                    let mut e = raw_pull_concurrent_cancel(srv.addr, &format!("n={},w={},fail=-1,ps=70000", 4 * chunk, chunk));
+                    e["producer"] = json!("writer"); e["comp"] = json!(compu); e["chunk"] = json!(chunk); e["depth"] = json!(depth);
+                    out.push(&e); n_pulls += 1;
                 }
                 // --- library pullers over the three clients on the writer producer
                 let ac = rt.block_on(AsyncClient::connect(srv.addr)).unwrap();
